@@ -306,6 +306,27 @@ def s1_sibling_converters(ctx: Ctx):
         good = len(rets) == 1 and norm(rets[0].value) == f'_sci_to_fraction(sign, i, f, exp, {base}, {b})'
         ctx.check(good, FRACTIONS, fn, fname, f'_sci_to_fraction(sign, i, f, exp, digits base {base}, exponent base {b})',
                   f'got {norm(rets[0].value) if rets else None}')
+    # the hexadecimal pattern reads the spellings of a hexadecimal floating-point number: digits, `x` and `p` in either case,
+    # a point with digits on one side only.  (The pattern is a constant of the source; it is compiled here with the flags the
+    # source gives it and put to a table of spellings.)
+    node = mod.toplevel().get('_HEXNUM_PATTERN')
+    flags = 0
+    for a in getattr(node, 'value').args[1:]:
+        for nm in (dotted(x) for x in ast.walk(a) if isinstance(x, (ast.Attribute, ast.Name))):
+            if nm in ('re.IGNORECASE', 're.I'):
+                flags |= re.IGNORECASE
+    hexpat = re.compile(pats['_HEXNUM_PATTERN'], flags)
+    good_ = ['0x1.8p1', '0x1.ABCp1', '0X1.8P1', '0x1.p3', '0x.8p0', '0x10', '-0x1.8p-3', '+0xAp+2', '0xfF.fFp0']
+    bad_ = ['0x', '0x.p1', '1.8p1', '0x1.8p', '0x1.8q1', '0x1..8p1', '0xg']
+    missed = [s_ for s_ in good_ if not hexpat.fullmatch(s_)]
+    extra = [s_ for s_ in bad_ if hexpat.fullmatch(s_)]
+    ctx.check(not missed and not extra, FRACTIONS, node, '_HEXNUM_PATTERN', f'reads the spellings of a hexadecimal number ({len(good_)} accepted, {len(bad_)} refused)',
+              (f'refuses {missed}' if missed else f'accepts {extra}') + ': hexfloat(\'0x1.ABCp1\') is a ValueError although it spells 1711/512')
+    hfn = ctx.fn(FRACTIONS, 'hexnum_to_fraction')
+    if hexpat.fullmatch('0x1.p3'):
+        handled = any(isinstance(s, ast.Assign) and dotted(s.targets[0]) == 'f' and isinstance(s.value, ast.IfExp) and norm(s.value.test) in ("parts[1] != ''", "parts[1]", "parts[1] == ''", "not parts[1]")
+                      and any(isinstance(x, ast.Constant) and x.value is None for x in (s.value.body, s.value.orelse)) for s in walk_no_nested(hfn))
+        ctx.check(handled, FRACTIONS, hfn, 'hexnum_to_fraction', 'an empty fraction part ("0x1.p3") is read as none', 'the pattern admits a point with no digits after it, and the converter passes the empty string to int()')
     # the shared formula
     fn = ctx.fn(FRACTIONS, '_sci_to_fraction')
     asg = {}
@@ -391,6 +412,9 @@ RULES = [
 from ..selftest import Mutant  # noqa: E402
 
 MUTANTS = [
+    Mutant('hexadecimal-literals-in-lower-case-only', FRACTIONS, "(p([-+]?[0-9]+))?', re.IGNORECASE)", "(p([-+]?[0-9]+))?')", 'C06.S1',
+           'finding F132 before its repair: hexfloat(\'0x1.ABCp1\') is refused'),
+    Mutant('empty-hexadecimal-fraction-handed-to-int', FRACTIONS, "        f = parts[1] if parts[1] != '' else None    # `0x1.p3`\n", "        f = parts[1]\n", 'C06.S1'),
     Mutant('narrow-formats-prepared-through-a-double', 'fpy2/number/context/context.py', "        p, n = self.round_params()\n        return mpfr_value(x, prec=p, n=n)",
            "        p, n = self.round_params()\n        if isinstance(x, Fraction) and p is not None and 2 * p + 2 <= 53:\n            return RealFloat.from_float(float(x))\n        return mpfr_value(x, prec=p, n=n)", 'C06.F3',
            'seeded change C06e: a literal under binary32 is rounded to binary64 first'),
